@@ -111,7 +111,8 @@ var c07Model = porcupine.Model{
 			ok := false
 			switch {
 			case s.fail:
-				ok = out.Err == "injected"
+				// the recorded error: the injected one, possibly wrapped beyond errors.Is
+				ok = out.Err == "injected" || strings.HasPrefix(out.Err, "other:")
 			default:
 				if s.done && out.Err == "nil" {
 					ok = true
@@ -264,7 +265,7 @@ func c07MakeInput(seed uint64, target string, size string) c07Input {
 	}
 	o := pbfw.GenOpts{MinBlocks: 6, MaxBlocks: 6, MaxGroups: 1, MaxElems: 5, SmallStrings: true}
 	if strings.HasPrefix(size, "big") {
-		o = pbfw.GenOpts{MinBlocks: 300, MaxBlocks: 300, MaxGroups: 1, MaxElems: 3, SmallStrings: true}
+		o = pbfw.GenOpts{MinBlocks: 1000, MaxBlocks: 1000, MaxGroups: 1, MaxElems: 2, SmallStrings: true}
 	}
 	f := pbfw.GenFile(r, o)
 	if strings.HasSuffix(size, "-nohdr") {
@@ -781,11 +782,11 @@ func init() {
 		ID:    "C07",
 		Level: "fault_enumeration",
 		Rule: "call histories Header? Scan×k stop post-ops for EVERY k=0..N+1 of small PBF (with and without header block) and XML inputs × stop kind {Close, cancel from the scanning goroutine, cancel from a second goroutine overlapping further Scans, cancel immediately followed by Close with a slow reader} × decoders {1,2,4,16} (race build), checked for linearizability against a sequential scanner model with porcupine; " +
-			"300-block inputs with a counting reader for the bytes consumed after the stop; cancellation from the reader goroutine's Read callback or a timer with a slow consumer under the race detector; histories with an injected I/O error; endless input with a logical byte budget. " +
+			"1000-block inputs with a counting reader for the bytes consumed after the stop; cancellation from the reader goroutine's Read callback or a timer with a slow consumer under the race detector; histories with an injected I/O error; endless input with a logical byte budget. " +
 			"Signature = (target, stop kind, decoders, stop-position class, post-ops, fault injected).",
 		Assumptions: []string{
 			"after a complete scan followed by Close/cancel, Err may be nil or the closed/context error (both satisfy the stated precedence)",
-			"a correct pipeline may finish the block read in flight and a few more: the read-ahead allowance after a stop is 25% of the remaining input of a 300-block file; reading the rest is a violation",
+			"a correct pipeline may finish the block read in flight and a few more: the read-ahead allowance after a stop is 25% of the remaining input of a 1000-block file (about 250 blocks, far beyond any sensible pipeline buffering); reading the rest is a violation",
 			"after cancel without Close, goroutines are polled: remaining blocked ones are a leak (violation), runnable ones are inconclusive",
 		},
 		Cases:            c07Cases,
